@@ -253,7 +253,10 @@ def hop_systems(draw, tier='quick', max_sites=6, max_diff=3, max_frames=10, lat_
         plan.append(col)
     # site coordinates may be handed over in any periodic image (a Structure keeps them as given)
     shifts = [[draw(st.sampled_from([0, 0, 0, 0, 0, -1, 1, 2])) for _ in range(3)] for _ in sites['frac']]
-    case = {'lattice': lat, 'sites': {'frac': sites['frac'], 'labels': sites['labels'], 'image_shift': shifts}, 'radius': radius, 'inner_fraction': float(f),
+    dshift = None
+    if draw(st.integers(0, 2)) == 0:
+        dshift = [[[draw(st.sampled_from([0, 0, -1, 1, -2, 3])) for _ in range(3)] for _ in range(Nd)] for _ in range(T)]
+    case = {'lattice': lat, 'sites': {'frac': sites['frac'], 'labels': sites['labels'], 'image_shift': shifts}, 'diff_shift': dshift, 'radius': radius, 'inner_fraction': float(f),
             'diff': path.tolist(), 'plan': plan, 'time_step': 1e-15, 'temperature': draw(st.sampled_from([300.0, 700.0]))}
     if framework:
         nf = draw(st.integers(1, 4))
